@@ -520,8 +520,27 @@ func (e *CoreExtension) filterDate(value interface{}, args ...interface{}) (inte
 				dt = time.Unix(int64(v), 0)
 			}
 		default:
-			// For unknown types, use current time
-			dt = time.Now()
+			// The other number types are timestamps too, a pointer stands for what it
+			// points to, and a named string type is a string
+			rv := reflect.ValueOf(value)
+			switch rv.Kind() {
+			case reflect.Ptr, reflect.Interface:
+				if !rv.IsNil() && rv.Elem().CanInterface() {
+					return e.filterDate(rv.Elem().Interface(), args...)
+				}
+				dt = time.Now()
+			case reflect.Int8, reflect.Int16, reflect.Int32, reflect.Int, reflect.Int64:
+				return e.filterDate(rv.Int(), args...)
+			case reflect.Uint8, reflect.Uint16, reflect.Uint32, reflect.Uint, reflect.Uint64:
+				return e.filterDate(int64(rv.Uint()), args...)
+			case reflect.Float32, reflect.Float64:
+				return e.filterDate(rv.Float(), args...)
+			case reflect.String:
+				return e.filterDate(rv.String(), args...)
+			default:
+				// For unknown types, use current time
+				dt = time.Now()
+			}
 		}
 	}
 
